@@ -1,6 +1,8 @@
 package optimizer
 
 import (
+	"reflect"
+
 	. "github.com/antonmedv/expr/ast"
 )
 
@@ -15,6 +17,12 @@ func (*inRange) Exit(node *Node) {
 			// only applied when evaluating that operand twice cannot be told
 			// apart from evaluating it once (no calls, no builtins).
 			if !canDuplicate(n.Left) {
+				return
+			}
+			// 'x in a..b' tests membership in the integers a..b; the two
+			// comparisons are only equivalent for an integer x (1.5 is not in
+			// 1..2, a string is in no range).
+			if t := n.Left.Type(); t != nil && !isInteger(t.Kind()) {
 				return
 			}
 			if rng, ok := n.Right.(*BinaryNode); ok && rng.Operator == ".." {
@@ -44,6 +52,15 @@ func (*inRange) Exit(node *Node) {
 			}
 		}
 	}
+}
+
+func isInteger(k reflect.Kind) bool {
+	switch k {
+	case reflect.Int, reflect.Int8, reflect.Int16, reflect.Int32, reflect.Int64,
+		reflect.Uint, reflect.Uint8, reflect.Uint16, reflect.Uint32, reflect.Uint64:
+		return true
+	}
+	return false
 }
 
 // canDuplicate reports whether node can be evaluated twice in place of once.
